@@ -187,8 +187,14 @@ def bad_history(rng, kind, ncalls=20, small=False, **over):
             for k in ("short_in", "short_out"):
                 if k in s:
                     s[k] = [c, s[k][1] if rng.random() < 0.5 else rng.choice([1, 2, -1])]
-            b = {"op": "bad", "id": 0, "via": rng.choice(["into", "slices", "vec_into"])}
+            b = {"op": "bad", "id": 0, "via": rng.choice(["into", "slices", "vec_into", "alloc", "vec_alloc"])}
             b.update(s)
+            if b["via"] in ("alloc", "vec_alloc"):
+                # process() allocates the output itself: only input / mask shapes can be wrong
+                b.pop("short_out", None)
+                b.pop("out_ch", None)
+                if not any(k in b for k in ("in_ch", "mask_len", "short_in")):
+                    b["short_in"] = [c, 1]
             if ch > 1 and "mask_len" not in b and rng.random() < 0.5:
                 # a well-formed mask with inactive channels on a call that is rejected for another reason
                 m = [rng.random() < 0.5 for _ in range(ch)]
